@@ -647,8 +647,14 @@ class OpenSystem:
             
                 dsum = 0.0
                 
+                # energies in internal units (as kB_intK), relative to 
+                # the lowest one so that the exponentials cannot all underflow
+                with energy_units("int"):
+                    ens = numpy.real(numpy.diag(H.data))
+                ens = ens - numpy.amin(ens)
+                
                 for n in range(H._data.shape[0]):
-                    dat[n,n] = numpy.exp(-H.data[n,n]/(kB_intK*T))
+                    dat[n,n] = numpy.exp(-ens[n]/(kB_intK*T))
                     dsum += dat[n,n]
 
                 dat *= 1.0/dsum
